@@ -29,15 +29,19 @@ impl PrefilledTransaction {
         }
 
         // Each output value, as well as the total, must be in legal money range
-        let mut total_out = 0;
+        // (checked inside the loop: both operands are then at most MAX_SATOSHIS, so the i64 sum is exact)
+        let mut total_out: i64 = 0;
         for tx_out in self.tx.outputs.iter() {
             if tx_out.satoshis < 0 {
                 return Err(ChainGangError::BadData("tx_out satoshis negative".to_string()));
             }
+            if tx_out.satoshis > MAX_SATOSHIS {
+                return Err(ChainGangError::BadData("tx_out satoshis exceeds max satoshis".to_string()));
+            }
             total_out += tx_out.satoshis;
-        }
-        if total_out > MAX_SATOSHIS {
-            return Err(ChainGangError::BadData("Total out exceeds max satoshis".to_string()));
+            if total_out > MAX_SATOSHIS {
+                return Err(ChainGangError::BadData("Total out exceeds max satoshis".to_string()));
+            }
         }
         Ok(())
     }
